@@ -14,11 +14,81 @@ def JustLs (es : List IExpr) : Prop :=
   (∀ xs G Γ s ts Γ' s', goZip es xs G Γ s = some (ts, Γ', s') → Clean s' →
     ∀ B, BIn B (bindersL ts) → EnvAll B Γ → EnvAll B Γ' ∧ JL B G.funs s'.cs (oblsL ts)) ∧
   (∀ exp G Γ s ts Γ' s', goBlock es exp G Γ s = some (ts, Γ', s') → Clean s' →
+    ∀ B, BIn B (bindersL ts) → EnvAll B Γ → EnvAll B Γ' ∧ JL B G.funs s'.cs (oblsL ts)) ∧
+  (∀ el G Γ s ts Γ' s', goArr es el G Γ s = some (ts, Γ', s') → Clean s' →
+    ∀ B, BIn B (bindersL ts) → EnvAll B Γ → EnvAll B Γ' ∧ JL B G.funs s'.cs (oblsL ts ++ relAll ts el)) ∧
+  (∀ ks ps G Γ s ts Γ' s', goIdx es ks ps G Γ s = some (ts, Γ', s') → Clean s' →
     ∀ B, BIn B (bindersL ts) → EnvAll B Γ → EnvAll B Γ' ∧ JL B G.funs s'.cs (oblsL ts))
 
 def JustA (arms : List IArm) : Prop :=
   ∀ sty exp armTy G Γ s tas Γ' s', goArms arms sty exp armTy G Γ s = some (tas, Γ', s') → Clean s' →
     ∀ B, BIn B (bindersA tas) → EnvAll B Γ → EnvAll B Γ' ∧ JL B G.funs s'.cs (oblsA tas sty (exp.getD armTy))
+
+theorem find_of_nodup {α} : ∀ (l : List (Nat × α)), (l.map (·.1)).Nodup → ∀ p, p ∈ l →
+    l.find? (fun q => q.1 == p.1) = some p
+  | [], _, p, hp => by cases hp
+  | q :: l, hn, p, hp => by
+    simp only [List.map_cons, List.nodup_cons] at hn
+    rcases List.mem_cons.1 hp with e | e
+    · subst e; simp [List.find?]
+    · have hne : ¬ (q.1 == p.1) = true := by
+        intro h
+        have : q.1 = p.1 := by simpa using h
+        exact hn.1 (this ▸ List.mem_map_of_mem (f := (·.1)) e)
+      simp only [List.find?, hne]
+      exact find_of_nodup l hn.2 p e
+
+theorem mem_zip_of_le {α} : ∀ (ks : List Nat) (ts : List α), ts.length ≤ ks.length → ∀ t, t ∈ ts → ∃ k, (k, t) ∈ ks.zip ts
+  | _, [], _, t, ht => by cases ht
+  | [], _ :: _, hl, _, _ => by simp at hl
+  | k :: ks, t0 :: ts, hl, t, ht => by
+    rcases List.mem_cons.1 ht with e | e
+    · subst e; exact ⟨k, by simp⟩
+    · obtain ⟨k', hk⟩ := mem_zip_of_le ks ts (by simpa using hl) t e
+      exact ⟨k', by simp [hk]⟩
+
+theorem mem_bindersL : ∀ (L : List TExpr) p, p ∈ bindersL L ↔ ∃ t, t ∈ L ∧ p ∈ binders t
+  | [], p => by simp [bindersL]
+  | t :: L, p => by
+    simp only [bindersL, List.mem_append, mem_bindersL L p, List.mem_cons]
+    constructor
+    · rintro (h | ⟨t', h1, h2⟩)
+      · exact ⟨t, Or.inl rfl, h⟩
+      · exact ⟨t', Or.inr h1, h2⟩
+    · rintro ⟨t', h1 | h1, h2⟩
+      · subst h1; exact Or.inl h2
+      · exact Or.inr ⟨t', h1, h2⟩
+
+theorem mem_oblsL : ∀ (L : List TExpr) o, o ∈ oblsL L ↔ ∃ t, t ∈ L ∧ o ∈ obls t
+  | [], o => by simp [oblsL]
+  | t :: L, o => by
+    simp only [oblsL, List.mem_append, mem_oblsL L o, List.mem_cons]
+    constructor
+    · rintro (h | ⟨t', h1, h2⟩)
+      · exact ⟨t, Or.inl rfl, h⟩
+      · exact ⟨t', Or.inr h1, h2⟩
+    · rintro ⟨t', h1 | h1, h2⟩
+      · subst h1; exact Or.inl h2
+      · exact Or.inr ⟨t', h1, h2⟩
+
+theorem reorder_sub {n idxs ts t} (h : t ∈ reorder n idxs ts) : t ∈ ts ∨ t = TExpr.prim .unit := by
+  simp only [reorder, List.mem_map, List.mem_range] at h
+  obtain ⟨k, _, rfl⟩ := h
+  cases hf : (idxs.zip ts).find? (fun p => p.1 == k) with
+  | none => exact Or.inr rfl
+  | some p => exact Or.inl (List.of_mem_zip (List.mem_of_find?_eq_some hf)).2
+
+theorem reorder_sup {n idxs ts} (hz : zipOk n idxs ts = true) {t} (ht : t ∈ ts) : t ∈ reorder n idxs ts := by
+  simp only [zipOk, Bool.and_eq_true, decide_eq_true_eq, List.all_eq_true] at hz
+  obtain ⟨⟨hnd, hle⟩, hall⟩ := hz
+  obtain ⟨k, hk⟩ := mem_zip_of_le idxs ts hle t ht
+  have hkn : k < n := hall k (List.of_mem_zip hk).1
+  simp only [reorder, List.mem_map, List.mem_range]
+  refine ⟨k, hkn, ?_⟩
+  have := find_of_nodup (idxs.zip ts) hnd (k, t) hk
+  simp only at this
+  rw [this]
+  rfl
 
 theorem absurd_err {α : Prop} {i exp v Γx} {s0 : St} {d} {t Γ' s'}
     (h : finish i exp v (errExpr (s0.diag d)).1 Γx (errExpr (s0.diag d)).2 = some (t, Γ', s')) (hd : Clean s') : α := by
@@ -126,7 +196,7 @@ theorem go_just : ∀ e, Just1 e := by
       obtain ⟨rfl, rfl, lf, hexp⟩ := finish_inv h
       simp only [binders] at hB
       have L1 : Le s1 s' := (le_popScope _ _).trans lf
-      obtain ⟨e1, j1⟩ := ih.2.2 exp G _ s ts _ s1 h1 (L1.nodiag hd) B hB hΓ.push
+      obtain ⟨e1, j1⟩ := ih.2.2.1 exp G _ s ts _ s1 h1 (L1.nodiag hd) B hB hΓ.push
       exact ⟨e1.pop, by simp only [obls]; exact JL.append (j1.mono L1) (JL.one rfl), hexp⟩
   -- ite
   · intro i c t e ihc iht ihe exp G Γ s tt0 Γ' s' h hd B hB hΓ
@@ -443,13 +513,17 @@ theorem go_just : ∀ e, Just1 e := by
     simp only [Option.some.injEq, Prod.mk.injEq] at h
     obtain ⟨_, _, rfl⟩ := h
     exact (mark_absurd l1 hd).elim
-  · intro i items _ exp G Γ s t Γ' s' h hd B hB hΓ
-    obtain ⟨t1, Γ1, s1, h1, l1⟩ := go_le (.array i items) exp G Γ s.mark
-    have e : go (.array i items) exp G Γ s = go (.array i items) exp G Γ s.mark := by rw [go, go]; rfl
-    rw [e, h1] at h
-    simp only [Option.some.injEq, Prod.mk.injEq] at h
-    obtain ⟨_, _, rfl⟩ := h
-    exact (mark_absurd l1 hd).elim
+  -- array
+  · intro i items ih exp G Γ s t Γ' s' h hd B hB hΓ
+    rw [go] at h
+    obtain ⟨ts, Γ1, s1, h1, l1⟩ := (goL_le items).2.2.2.1 s.fresh.1 G Γ s.fresh.2
+    simp only [h1] at h
+    obtain ⟨rfl, rfl, lf, hexp⟩ := finish_inv h
+    simp only [binders] at hB
+    obtain ⟨e1, j1⟩ := ih.2.2.2.1 s.fresh.1 G Γ _ ts _ s1 h1 (lf.nodiag hd) B hB hΓ
+    refine ⟨e1, ?_, hexp⟩
+    simp only [obls, arrObls]
+    exact j1.mono lf
   -- constr
   · intro i info args ih exp G Γ s t Γ' s' h hd B hB hΓ
     rcases info with _ | _ | ⟨cty, arity⟩
@@ -484,20 +558,44 @@ theorem go_just : ∀ e, Just1 e := by
           refine JL.append (j1.mono L1) (JL.one ?_)
           cases hts : ts.isEmpty <;> simp only [hts, if_true, Bool.false_eq_true, if_false] <;>
             exact Or.inr (lf.mem _ (by simp [St.push, hts]))
-  · intro i info idxs args _ exp G Γ s t Γ' s' h hd B hB hΓ
-    obtain ⟨t1, Γ1, s1, h1, l1⟩ := go_le (.slit i info idxs args) exp G Γ s.mark
-    have e : go (.slit i info idxs args) exp G Γ s = go (.slit i info idxs args) exp G Γ s.mark := by
-      cases info with
-      | none => rw [go, go]; rfl
-      | some pr => rw [go, go]; rfl
-    rw [e, h1] at h
-    simp only [Option.some.injEq, Prod.mk.injEq] at h
-    obtain ⟨_, _, rfl⟩ := h
-    exact (mark_absurd l1 hd).elim
+  -- slit
+  · intro i info idxs args ih exp G Γ s t Γ' s' h hd B hB hΓ
+    cases info with
+    | none => rw [go] at h; exact absurd_err h hd
+    | some pr =>
+      obtain ⟨cty, nf⟩ := pr
+      rw [go] at h
+      dsimp only at h
+      obtain ⟨ts, Γ1, s1, h1, l1⟩ := (goL_le args).2.2.2.2.2.2 idxs (ctorParams (s.inst cty).1) G Γ (s.inst cty).2
+      simp only [h1] at h
+      obtain ⟨rfl, rfl, lf, hexp⟩ := finish_inv h
+      cases hz : zipOk nf idxs ts with
+      | false =>
+        simp only [hz, Bool.false_eq_true, if_false] at lf
+        exact (mark_absurd ((le_push _ _).trans lf) hd).elim
+      | true =>
+        simp only [hz, if_true] at lf
+        simp only [binders] at hB
+        have L1 : Le s1 s' := (le_push _ _).trans lf
+        have hBts : BIn B (bindersL ts) := by
+          intro p hp
+          obtain ⟨t, ht, hpt⟩ := (mem_bindersL ts p).1 hp
+          exact hB p ((mem_bindersL _ p).2 ⟨t, reorder_sup hz ht, hpt⟩)
+        obtain ⟨e1, j1⟩ := ih.2.2.2.2 idxs _ G Γ _ ts _ s1 h1 (L1.nodiag hd) B hBts hΓ
+        refine ⟨e1, ?_, hexp⟩
+        simp only [obls]
+        refine JL.append ?_ (JL.one ?_)
+        · intro o ho
+          obtain ⟨t, ht, hot⟩ := (mem_oblsL _ o).1 ho
+          rcases reorder_sub ht with h | h
+          · exact (j1.mono L1) o ((mem_oblsL ts o).2 ⟨t, h, hot⟩)
+          · subst h; simp [obls] at hot
+        · cases hts : (reorder nf idxs ts).isEmpty <;> simp only [hts, if_true, Bool.false_eq_true, if_false] <;>
+            exact Or.inr (lf.mem _ (by simp [St.push, hts]))
   -- arm
   · intro p body ih; exact ih
   -- []
-  · refine ⟨?_, ?_, ?_⟩
+  · refine ⟨?_, ?_, ?_, ?_, ?_⟩
     · intro G Γ s ts Γ' s' h hd B hB hΓ
       rw [goL] at h
       simp only [Option.some.injEq, Prod.mk.injEq] at h
@@ -512,9 +610,18 @@ theorem go_just : ∀ e, Just1 e := by
       simp only [Option.some.injEq, Prod.mk.injEq] at h
       obtain ⟨rfl, rfl, rfl⟩ := h
       exact ⟨hΓ, by simp only [oblsL]; exact JL.nil⟩
+    · intro el G Γ s ts Γ' s' h hd B hB hΓ
+      rw [goArr] at h
+      simp only [Option.some.injEq, Prod.mk.injEq] at h
+      obtain ⟨rfl, rfl, rfl⟩ := h
+      exact ⟨hΓ, by simp only [oblsL, relAll]; exact JL.nil⟩
+    · intro ks ps G Γ s ts Γ' s' h hd B hB hΓ
+      simp only [goIdx, Option.some.injEq, Prod.mk.injEq] at h
+      obtain ⟨rfl, rfl, rfl⟩ := h
+      exact ⟨hΓ, by simp only [oblsL]; exact JL.nil⟩
   -- e :: es
   · intro e es ihe ihes
-    refine ⟨?_, ?_, ?_⟩
+    refine ⟨?_, ?_, ?_, ?_, ?_⟩
     · intro G Γ s ts Γ' s' h hd B hB hΓ
       rw [goL] at h
       obtain ⟨t, Γ1, s1, h1, l1⟩ := go_le e none G Γ s
@@ -549,8 +656,44 @@ theorem go_just : ∀ e, Just1 e := by
       obtain ⟨rfl, rfl, rfl⟩ := h
       simp only [bindersL] at hB
       obtain ⟨e1, j1, _⟩ := ihe _ G Γ s t Γ1 s1 h1 (l2.nodiag hd) B hB.left hΓ
-      obtain ⟨e2, j2⟩ := ihes.2.2 exp G Γ1 s1 ts2 _ _ h2 hd B hB.right e1
+      obtain ⟨e2, j2⟩ := ihes.2.2.1 exp G Γ1 s1 ts2 _ _ h2 hd B hB.right e1
       exact ⟨e2, by simp only [oblsL]; exact JL.append (j1.mono l2) j2⟩
+    · intro el G Γ s ts Γ' s' h hd B hB hΓ
+      rw [goArr] at h
+      obtain ⟨t, Γ1, s1, h1, l1⟩ := go_le e none G Γ s
+      obtain ⟨ts2, Γ2, s2, h2, l2⟩ := (goL_le es).2.2.2.1 el G Γ1 (s1.push (.eq t.ty el))
+      simp only [h1, h2, Option.some.injEq, Prod.mk.injEq] at h
+      obtain ⟨rfl, rfl, rfl⟩ := h
+      simp only [bindersL] at hB
+      have L1 : Le s1 s2 := (le_push _ _).trans l2
+      obtain ⟨e1, j1, _⟩ := ihe none G Γ s t Γ1 s1 h1 (L1.nodiag hd) B hB.left hΓ
+      obtain ⟨e2, j2⟩ := ihes.2.2.2.1 el G Γ1 _ ts2 _ _ h2 hd B hB.right e1
+      refine ⟨e2, ?_⟩
+      simp only [oblsL, relAll]
+      intro o ho
+      rcases List.mem_append.1 ho with ho | ho
+      · rcases List.mem_append.1 ho with ho | ho
+        · exact (j1.mono L1) o ho
+        · exact j2 o (List.mem_append_left _ ho)
+      · rcases List.mem_cons.1 ho with ho | ho
+        · rw [ho]; exact Or.inr (l2.mem _ (mem_push _ _))
+        · exact j2 o (List.mem_append_right _ ho)
+    · intro ks ps G Γ s ts Γ' s' h hd B hB hΓ
+      cases ks with
+      | nil =>
+        simp only [goIdx, Option.some.injEq, Prod.mk.injEq] at h
+        obtain ⟨rfl, rfl, rfl⟩ := h
+        exact ⟨hΓ, by simp only [oblsL]; exact JL.nil⟩
+      | cons k ks =>
+        simp only [goIdx] at h
+        obtain ⟨t, Γ1, s1, h1, l1⟩ := go_le e ps[k]? G Γ s
+        obtain ⟨ts2, Γ2, s2, h2, l2⟩ := (goL_le es).2.2.2.2.2.2 ks ps G Γ1 s1
+        simp only [h1, h2, Option.some.injEq, Prod.mk.injEq] at h
+        obtain ⟨rfl, rfl, rfl⟩ := h
+        simp only [bindersL] at hB
+        obtain ⟨e1, j1, _⟩ := ihe _ G Γ s t Γ1 s1 h1 (l2.nodiag hd) B hB.left hΓ
+        obtain ⟨e2, j2⟩ := ihes.2.2.2.2 ks ps G Γ1 s1 ts2 _ _ h2 hd B hB.right e1
+        exact ⟨e2, by simp only [oblsL]; exact JL.append (j1.mono l2) j2⟩
   -- [] arms
   · intro sty exp armTy G Γ s tas Γ' s' h hd B hB hΓ
     rw [goArms] at h
